@@ -57,26 +57,44 @@ def main():
             print("suite with patch:", tail, f"({time.time() - t0:.0f}s)")
     finally:
         sh(f"git -C /repo worktree remove --force {wt}")
-    # run the checks against the patched /repo
-    rc, out = sh("git -C /repo status --porcelain")
-    if out.strip():
-        print("/repo is not clean; refusing to apply", out)
-        return 2
-    rc, out = sh(f"git -C /repo apply {patch}")
+    override = "--override" in sys.argv
+    envp = ""
+    if override:
+        # /repo is in use (e.g. by a long thorough run): run the checks against a scratch worktree that carries the
+        # patch, by putting it first on PYTHONPATH (the checks import the first `tealer` on sys.path)
+        wt2 = f"/tmp/seedrun_{name}"
+        sh(f"git -C /repo worktree remove --force {wt2}")
+        sh(f"git -C /repo worktree add -f {wt2} HEAD -q")
+        sh(f"git apply {patch}", cwd=wt2)
+        envp = f"PYTHONPATH={wt2} "
+        meta["applied_to"] = "scratch worktree on PYTHONPATH (override)"
+        sh(f"rm -rf /tmp/ev_backup_{name}; cp -r {VERIF}/evidence /tmp/ev_backup_{name}")
+    else:
+        # run the checks against the patched /repo
+        rc, out = sh("git -C /repo status --porcelain")
+        if out.strip():
+            print("/repo is not clean; refusing to apply", out)
+            return 2
+        rc, out = sh(f"git -C /repo apply {patch}")
+        meta["applied_to"] = "/repo (git apply, undone afterwards)"
     try:
         for p in props:
             t0 = time.time()
-            rc, out = sh(f"./check {p} --tier quick", cwd=VERIF, timeout=7200)
+            rc, out = sh(f"{envp}./check {p} --tier quick", cwd=VERIF, timeout=7200)
             viol = [l for l in out.splitlines() if l.startswith("VIOLATION")]
             first = [l for l in out.splitlines() if l.startswith("    ")][:3]
             res = [l for l in out.splitlines() if l.startswith("RESULT")]
             meta["ran"].append({"check": f"./check {p} --tier quick", "exit": rc, "violations": len(viol), "first": first, "result": res[-1] if res else "", "seconds": round(time.time() - t0)})
             print(f"{p}: exit {rc}, {len(viol)} VIOLATION lines; {first[:1]}")
     finally:
-        sh("git -C /repo checkout -- .")
+        if override:
+            sh(f"git -C /repo worktree remove --force /tmp/seedrun_{name}")
+            sh(f"rm -rf {VERIF}/evidence && cp -r /tmp/ev_backup_{name} {VERIF}/evidence && rm -rf /tmp/ev_backup_{name}")
+        else:
+            sh("git -C /repo checkout -- .")
+            # evidence files were rewritten against the patched tree: restore the committed ones
+            sh("git -C /verif checkout -- evidence")
         sh("rm -rf /verif/replays")
-        # evidence files were rewritten against the patched tree: restore the committed ones
-        sh("git -C /verif checkout -- evidence")
     dest = os.path.join(VERIF, "seeded", name)
     os.makedirs(dest, exist_ok=True)
     shutil.copy(patch, os.path.join(dest, "patch.diff"))
